@@ -18,7 +18,7 @@ LEVEL = 'exploration'
 
 BIG = '9' * 4301
 SIGMA = [
-    'a', 'B', 'div', '-', '--', '_', '1', '0', BIG, 'é', '\U0001F600', '\ud800', 'ſ', 'İ', 'K',
+    'a', 'B', 'div', '-', '--', '_', '1', '0', BIG, 'é', '\U0001F600', '\ud800', 'ſ', 'İ', 'K', '\x01', '\x1b', '\x7f', '\x85', '\u2028', '\ufeff', '\uffff', '\U000e0001',
     '*', '|', '#', '.', '[', ']', '=', '~=', '|=', '^=', '$=', '*=', '!=', '"', "'", '\\', '\\0', '\\110000', '\\ffffff', '\\d800',
     '\\\n', '\x00', ' ', '\n', '\r', '\f', '\t', ',', '>', '+', '~', ':', '::', '(', ')',
     ':not(', ':is(', ':has(', ':nth-child(', ':nth-of-type(', '2n+1', ' of ', ':lang(', ':dir(', 'ltr', ':-soup-contains(', ':contains(',
@@ -113,7 +113,9 @@ def features(lexemes):
         elif x in ('\x00',):
             f.add('NUL')
         elif not x.isascii():
-            f.add('non-ascii:U+%04X' % ord(x.strip()[0]))
+            f.add('non-ascii:U+%04X' % ord(x[0]))
+        elif any(ord(c) < 0x20 and c not in '\t\n\r\f' or ord(c) == 0x7f for c in x):
+            f.add('control-char')
         elif x.strip() in (':not(', ':is(', ':has(', ':nth-child(', ':nth-of-type(', ':lang(', ':dir(', ':-soup-contains(', ':contains(', '@page', '::', ':--x'):
             f.add(x.strip())
         elif x in ('[', '"', "'", '(', '/*'):
@@ -153,6 +155,7 @@ USES = [':--a', ':--A', ':--b', 'p:--a', ':--\\41', ':not(:--a)', 'p', ':--B', '
 
 
 def custom_maps():
+    yield ()                      # the empty map is a map too
     singles = [((k, v),) for k in KEYS for v in VALUES]
     yield from singles
     for (k1, v1), (k2, v2) in itertools.product([(k, v) for k in KEYS[:8] + KEYS[11:] for v in VALUES[:9] + VALUES[10:11]], repeat=2):
@@ -167,6 +170,21 @@ def run_custom(sv, res, i, n):
         custom = dict(items)
         for use in USES:
             sv.purge()
+            if not custom:
+                # argument shapes around "no entries": {} for custom and for namespaces, together and alone
+                for kw in ({'custom': {}}, {'namespaces': {}}, {'namespaces': {}, 'custom': {}}, {'namespaces': None, 'custom': None}, {'flags': 0, 'custom': {}}):
+                    try:
+                        r = sv.compile(use, **kw)
+                        c2 = 'ok' if isinstance(r, sv.SoupSieve) else 'wrong-return-type'
+                    except sv.SelectorSyntaxError:
+                        c2 = 'SelectorSyntaxError'
+                    except Exception as e:
+                        c2 = type(e).__name__
+                    res.evaluations += 1
+                    res.outcome('custom:' + c2)
+                    if c2 not in ('ok', 'SelectorSyntaxError'):
+                        res.fail({'layer': 'emptymaps', 'pattern': use, 'kw': sorted(kw)}, {'exc': c2, 'where': 'empty-map-arguments'},
+                                 f'compile({use!r}, **{kw!r}) raised {c2}')
             cls, exc = classify(sv, use, custom)
             res.evaluations += 1
             res.outcome('custom:' + cls)
@@ -199,6 +217,17 @@ def replay(case):
     from .. import common
     sv = common.bind()
     warnings.simplefilter('ignore')
+    if case['layer'] == 'emptymaps':
+        kw = {k: ({} if k != 'flags' else 0) for k in case['kw']}
+        if case['kw'] == ['custom', 'namespaces'] and False:
+            pass
+        try:
+            sv.compile(case['pattern'], **kw)
+            return None
+        except sv.SelectorSyntaxError:
+            return None
+        except Exception as e:
+            return {'exc': type(e).__name__, 'where': 'empty-map-arguments'}, repr(e)
     if case['layer'] == 'custom':
         custom = dict(tuple(x) for x in case['custom'])
         cls, exc = classify(sv, case['pattern'], custom)
